@@ -180,6 +180,10 @@ def update_for_language(stmts, lang):
 
     For lang==c,
       foo_bar["declare"] = foo_bar["c_declare"]
+
+    The replaced value is remembered and put back before the next
+    language is applied, so a clause which only has a value for one
+    language does not leak into a later run for the other language.
     """
     for item in stmts:
         for clause in [
@@ -192,10 +196,20 @@ def update_for_language(stmts, lang):
                 "cleanup",
                 "fail",
         ]:
+            key = (id(item), clause)
+            if key in _neutral_clause:
+                if _neutral_clause[key] is _missing:
+                    item.pop(clause, None)
+                else:
+                    item[clause] = _neutral_clause[key]
             specific = lang + "_" + clause
             if specific in item:
                 # XXX - maybe make sure clause does not already exist.
+                _neutral_clause.setdefault(key, item.get(clause, _missing))
                 item[clause] = item[specific]
+
+_missing = object()
+_neutral_clause = {}  # (id(statement dict), clause) -> value before update_for_language
 
 
 def compute_stmt_permutations(out, parts):
